@@ -87,6 +87,10 @@ pub struct Case {
     /// C03 part A: enumerate every crash point of the next get() for this prefix
     #[serde(default, skip_serializing_if = "Option::is_none")]
     pub matrix: Option<MatrixSpec>,
+    /// bounded-preemption sweep: `steps` is pause-free; every placement of one pause
+    /// (step, schedule point, resume after j further steps) is executed
+    #[serde(default, skip_serializing_if = "Option::is_none")]
+    pub sweep: Option<u8>,
 }
 
 /// Quiescent prefix state for the crash-point matrix.
@@ -101,6 +105,23 @@ pub struct MatrixSpec {
 }
 
 impl Step {
+    /// the same step, parking at its k-th schedule point
+    pub fn with_pause(&self, k: u8) -> Option<Step> {
+        let pause = Some(k);
+        Some(match *self {
+            Step::StartGet { zero_wait, .. } => Step::StartGet { zero_wait, pause },
+            Step::Poll { g, .. } => Step::Poll { g, pause },
+            Step::PollWoken { .. } => Step::PollWoken { pause },
+            Step::Cancel { g, .. } => Step::Cancel { g, pause },
+            Step::Return { h, .. } => Step::Return { h, pause },
+            Step::Take { h, .. } => Step::Take { h, pause },
+            Step::Retain { pred, .. } => Step::Retain { pred, pause },
+            Step::Resize { n, .. } => Step::Resize { n, pause },
+            Step::Close { .. } => Step::Close { pause },
+            _ => return None,
+        })
+    }
+
     pub fn kind(&self) -> &'static str {
         match self {
             Step::StartGet { zero_wait: false, .. } => "StartGet",
